@@ -100,7 +100,7 @@ def getPypeArgs (s : St) : Except (String × String) PypeArgs :=
   match assertKeyHasValue s "pype" "pypyr.steps.pype" with
   | .error e => .error e
   | .ok raw =>
-    match fmtV s raw with
+    match fmtAtKey s raw with
     | .error x => .error (x.name, x.msg)
     | .ok (.dict kvs) =>
       match dictGet? kvs (.str "name") with
